@@ -73,6 +73,8 @@ if [ "${1:-}" = "replay" ]; then
 fi
 
 id="${1:-}"; tier="${VERIF_TIER:-${2:-quick}}"
+# properties whose cases spawn CLI processes: every shrink step costs many spawns
+case "$id" in C11|C15|C22|C24|C26|C27) export VERIF_SHRINK_ITERS="${VERIF_SHRINK_ITERS:-120}";; esac
 [ -n "$id" ] || { echo "usage: run.sh <id> <quick|thorough>" >&2; exit 2; }
 rm -f "$ROOT/evidence/$id.json"
 cfgs="$(configs_of "$id")"
